@@ -147,3 +147,22 @@ pub fn read_u64s(path: &std::path::Path, into: &mut BTreeSet<u64>) {
         }
     }
 }
+
+/// The property under check (set by the worker / replay). A run stops at the first violation of
+/// *that* property; oracles of other properties that fire on the way are kept as notes, so that a
+/// breakage of one property cannot mask a later breakage of the property being checked.
+static FOCUS: std::sync::RwLock<Option<String>> = std::sync::RwLock::new(None);
+
+pub fn set_focus(p: Option<String>) {
+    *FOCUS.write().unwrap() = p;
+}
+
+pub fn should_stop(out: &RunOut) -> bool {
+    if out.harness_error.is_some() {
+        return true;
+    }
+    match FOCUS.read().unwrap().as_ref() {
+        None => !out.violations.is_empty(),
+        Some(f) => out.violations.len() > 40 || out.violations.iter().any(|v| v.props.iter().any(|p| p == f)),
+    }
+}
